@@ -569,6 +569,15 @@ class StmtMixin(object):
         st.assume(self.no_finals_between(st, st.alloc, a))   # re-established by the obligation at the unit's exit
       st.alloc = a
     head_alloc = st.alloc
+    # streams written by the loop body: what earlier iterations wrote is an opaque chunk
+    if st.bufs and ls.get('writes_streams', True) and any(
+        isinstance(n, ast.Attribute) and n.attr == 'write' for b in body for n in ast.walk(b)):
+      nb = {}
+      for key, bf in st.bufs.items():
+        sym, ln = z3.Int(fresh_name('chunk')), z3.Int(fresh_name('chunklen'))
+        st.assume(ln >= 0)
+        nb[key] = dict(bf, data=list(bf['data']) + [('raw', sym, ln)])
+      st.bufs = nb
     head_heap = dict(st.heap)
     modkeys = self.keys_of_patterns(mods)
     for e in ls.get('invariant', ()):
@@ -641,7 +650,14 @@ class StmtMixin(object):
       b = base_heap.get(k)
       if b is None or b is a or z3.eq(a, b):
         continue
-      self.oblige(st, '%s:%s' % (name, k), a == b, node, 'heap component %s is not modified' % k)
+      lim = base_heap.get('$alloc')
+      if lim is not None and a.sort().domain() == z3.IntSort():
+        # objects allocated since then are the function's own: only pre-existing ones are framed
+        r = z3.Int(fresh_name('fr'))
+        goal = z3.ForAll([r], z3.Implies(r <= lim, z3.Select(a, r) == z3.Select(b, r)))
+      else:
+        goal = a == b
+      self.oblige(st, '%s:%s' % (name, k), goal, node, 'heap component %s is not modified (on pre-existing objects)' % k)
 
   def ex_For(self, node, st, cx):
     if node.orelse:
@@ -706,7 +722,35 @@ class StmtMixin(object):
         yield o
 
   def for_other(self, node, st, cx, ordn, ls, seq, enum):
-    raise Unsupported('for-loop over %r (line %d)' % (seq, node.lineno))
+    """for k, v in d.items() / for k in d.keys() / for v in d.values(): an arbitrary number of
+    iterations, each over an arbitrary entry of the dictionary; CPython raises RuntimeError if
+    the dictionary changes size while iterated (obligation at the end of every iteration)."""
+    from .state import VBound
+    if not (isinstance(seq, VBound) and seq.kind == 'dictview') or enum:
+      raise Unsupported('for-loop over %r (line %d)' % (seq, node.lineno))
+    d = seq.recv
+    frame_id = cx.chain[0]
+    kty, vty = d.ty.args
+    more = '$more%d' % ordn
+    st.frames[frame_id][more] = V(BOOL, z3.Bool(fresh_name('more')))
+    ls2 = dict(ls)
+    ls2['havoc_locals'] = list(ls.get('havoc_locals', ())) + [more]
+    card0 = self.dict_card(st, d)
+    def test(s):
+      return s.frames[frame_id][more].t
+    def step(s):
+      self.oblige(s, 'no-RuntimeError[%s.loop%d]' % (cx.qual, ordn), self.dict_card(s, d) == card0, node,
+                  'the dictionary does not change size while it is iterated')
+      s.frames[frame_id][more] = V(BOOL, z3.Bool(fresh_name('more')))
+    def pre(s):
+      k = self.fresh_val(s, kty, 'key')
+      s.assume(z3.Select(self.dict_has_arr(s, d), k.t))
+      val = self.dict_get(s, d, k.t)
+      item = {'items': V(Ty('tuple', [kty, vty]), items=[k, val]), 'keys': k, 'values': val}[seq.name]
+      for o in self.assign_to(node.target, item, s, cx):
+        yield o
+    for o in self.run_loop(node, st, cx, ordn, ls2, test, node.body, step, pre):
+      yield o
 
 
 def _as_load(t):
